@@ -176,3 +176,6 @@ func TOMLBytes(v interface{}) []byte {
 	}
 	return b
 }
+
+// Enable switches on an optional summary/stub of the symbolic executor (no effect natively).
+func Enable(flag string) {}
